@@ -10,12 +10,13 @@ EXTENDS Naturals, Integers, TLC, Json
 \*  "tr"        not trivially copyable, declares std::true_type        -> relocatable
 \*  "ntr"       not trivially copyable, no declaration, noexcept moves -> not relocatable
 \*  "throwmove" as "ntr" but its move operations may throw
-SCats == {"trivial", "optout", "tr", "ntr", "throwmove"}
+\*  "throwasg"  as "ntr" but its move ASSIGNMENT may throw (noexcept move constructor)
+SCats == {"trivial", "optout", "tr", "ntr", "throwmove", "throwasg"}
 
 IsTR(cat) == cat \in {"trivial", "tr"}
 TrivDtor(cat) == cat \in {"trivial", "optout"}
 NxMoveCtor(cat) == cat # "throwmove"
-NxMoveAsg(cat) == cat # "throwmove"
+NxMoveAsg(cat) == cat \notin {"throwmove", "throwasg"}
 PtrSize == 8
 
 \* smallest unsigned type able to hold N (bytes)
@@ -35,7 +36,7 @@ Row(size, align, cat, N) ==
    \* noexcept of move construction / move assignment / swap (N >= 1; amc::vector (N = 0): always noexcept)
    nxMoveCtor |-> IsTR(cat) \/ NxMoveCtor(cat),
    nxMoveAsg |-> IsTR(cat) \/ (NxMoveCtor(cat) /\ NxMoveAsg(cat)),
-   nxSwap |-> NxMoveCtor(cat),
+   nxSwap |-> NxMoveCtor(cat) /\ NxMoveAsg(cat),       \* std::swap of the elements: both moves
    \* container relocatability = conjunction of the parts
    vecTR |-> TRUE, svTR |-> IsTR(cat), fcvTR |-> IsTR(cat),
    \* pair<T, U> with U of category "tr" / "ntr"
